@@ -191,6 +191,38 @@ func compare(c *core.Ctx, what string, cfg poolCfg, seq, par outcome, tol float6
 	}
 }
 
+// shiftGamma adds a common offset to all log-weights (weights scaled by a
+// common factor): the weighted maximum-likelihood estimate does not change.
+func shiftGamma(gamma ad.ConstVector, off float64) ad.ConstVector {
+	g := vecOf(gamma)
+	for i := range g {
+		g[i] += off // -Inf stays -Inf
+	}
+	return ad.NewDenseFloat64Vector(g)
+}
+
+// offsetInvariance compares the estimate under log-weights gamma with the one
+// under gamma + off.
+func offsetInvariance(c *core.Ctx, what string, off float64, base, shifted outcome, tol float64) {
+	c.Count("weights-offset:checked")
+	if base.class() != shifted.class() {
+		if boundaryError(base.err) || boundaryError(shifted.err) {
+			// a singular maximiser: see compare()
+			if base.err != "" {
+				c.Count("not-judged:maximiser-on-the-boundary-of-the-parameter-space")
+				return
+			}
+		}
+		c.Fail("weights-scale-invariance", what+"|common-offset-changes-outcome", "%s: with the log-weights as drawn the estimator ended with %q, with the same log-weights plus %g (all weights times a common factor) with %q", what, base.err, off, shifted.err)
+	}
+	if base.err != "" {
+		return
+	}
+	if i, ok := sameVec(base.params, shifted.params, tol); !ok {
+		c.Fail("weights-scale-invariance", what+"|common-offset-changes-estimate", "%s: parameter %d changes when %g is added to all log-weights (all weights times a common factor): %v -> %v", what, i, off, base.params, shifted.params)
+	}
+}
+
 // sequentialPanics: a workload on which the library panics already without a
 // pool says nothing about schedules (and the same panic on a pool worker
 // would take the process down); it is counted and not run in parallel.
